@@ -25,6 +25,44 @@ fn viol(tag: &str, detail: String) {
         v.push((tag.to_string(), detail));
     }
 }
+thread_local! {
+    /// number of mprotect calls of this thread to let through before refusing one (-1 = none)
+    static MPROTECT_FAIL_AT: std::cell::Cell<i64> = const { std::cell::Cell::new(-1) };
+    static MPROTECT_FIRED: std::cell::Cell<bool> = const { std::cell::Cell::new(false) };
+}
+
+/// Link-time interposer: the crate under test reaches the kernel's mprotect through here, so one
+/// call of an installation can be refused (EACCES / ENOMEM on a VMA split are what a real kernel
+/// answers).
+#[no_mangle]
+pub unsafe extern "C" fn mprotect(addr: *mut libc::c_void, len: libc::size_t, prot: i32) -> i32 {
+    let refuse = MPROTECT_FAIL_AT
+        .try_with(|c| {
+            let k = c.get();
+            if k == 0 {
+                c.set(-1);
+                true
+            } else {
+                if k > 0 {
+                    c.set(k - 1);
+                }
+                false
+            }
+        })
+        .unwrap_or(false);
+    if refuse {
+        let _ = MPROTECT_FIRED.try_with(|f| f.set(true));
+        *libc::__errno_location() = libc::ENOMEM;
+        return -1;
+    }
+    libc::syscall(libc::SYS_mprotect, addr, len, prot) as i32
+}
+
+#[inline(never)]
+fn os_fake(x: u32) -> u32 {
+    black_box(x) + 40
+}
+
 fn fault(k: &str) {
     FAULTS.lock().unwrap_or_else(|p| p.into_inner()).push(k.to_string());
 }
@@ -90,10 +128,12 @@ pub struct TScenario {
     pub classes: Vec<String>,
 }
 
-pub fn props_for(family: &str) -> Vec<&'static str> {
+pub fn props_for(family: &str, profile: &str) -> Vec<&'static str> {
     match family {
         "excl" => vec!["C04"],
         "count" => vec!["C06"],
+        // C06 profile: the counter is zeroed by the harness, so only the accounting itself is judged
+        "sharedsite" if profile == "C06" => vec!["C06"],
         "sharedsite" => vec!["C07"],
         "arms" => vec!["C06", "C08"],
         _ => vec!["C05", "C04"],
@@ -121,7 +161,14 @@ pub fn generate(family: &str, profile: &str, seed: u64, index: u64) -> TScenario
                 let mut rounds = Vec::new();
                 for _ in 0..nr {
                     let kind = if rng.chance(1, 2) { "injector" } else { "preventer" };
-                    let exit = if rng.chance(1, 4) { "panic" } else { "drop" };
+                    let exit = if rng.chance(1, 4) {
+                        "panic"
+                    } else if kind == "injector" && rng.chance(1, 5) {
+                        // a further installation during which the k-th mprotect is refused
+                        *rng.pick(&["osfault0", "osfault1", "osfault2"])
+                    } else {
+                        "drop"
+                    };
                     classes.push(format!("{kind}-{exit}"));
                     rounds.push(Round { kind: kind.into(), calls: 1 + rng.below(3) as u32, exit: exit.into(), yields: rng.below(3) as u32 });
                 }
@@ -177,7 +224,7 @@ pub fn generate(family: &str, profile: &str, seed: u64, index: u64) -> TScenario
         }
         _ => {
             // handover: thread 0 holds an injector and lets go in some way; 1-2 waiters
-            let exit = *rng.pick(&["panic", "overcall", "rejected", "refused", "unsatisfied", "drop"]);
+            let exit = *rng.pick(&["panic", "overcall", "rejected", "refused", "unsatisfied", "drop", "osfault0", "osfault1", "osfault2"]);
             threads.push(vec![Round { kind: "injector".into(), calls: 1 + rng.below(3) as u32, exit: exit.into(), yields: rng.below(4) as u32 }]);
             let nw = 1 + rng.below(2) as usize;
             for _ in 0..nw {
@@ -250,6 +297,10 @@ fn do_round(tid: usize, ri: usize, r: &Round, handover_holder: bool) {
             if v0 != 6 {
                 viol("guard-obtained-before-previous-holder-restored", format!("{what}: on obtaining the injector the shared function returned {v0}, not the original 6"));
             }
+            let c0 = black_box(ct_fn as fn(u32) -> u32)(1);
+            if c0 != 2 {
+                viol("guard-obtained-before-previous-holder-restored", format!("{what}: on obtaining the injector ct_fn(1) returned {c0}, not the original 2"));
+            }
             yields(r.yields);
             inj.when_called(ipp_sched::func!(fn (sh_fn)() -> u32)).will_execute_raw(fake_for(tid));
             let mut counted = false;
@@ -290,6 +341,41 @@ fn do_round(tid: usize, ri: usize, r: &Round, handover_holder: bool) {
                     fault("unsatisfied_expectation_at_scope_exit");
                     // falls out of scope with 0 of 1 calls: the drop panics
                 }
+                e if e.starts_with("osfault") && !counted => {
+                    let k: i64 = e[7..].parse().unwrap_or(0);
+                    MPROTECT_FIRED.with(|f| f.set(false));
+                    MPROTECT_FAIL_AT.with(|c| c.set(k));
+                    let r = catch_unwind(AssertUnwindSafe(|| {
+                        inj.when_called(ipp_sched::func!(fn (ct_fn)(u32) -> u32)).will_execute_raw(ipp_sched::func!(fn (os_fake)(u32) -> u32));
+                    }));
+                    MPROTECT_FAIL_AT.with(|c| c.set(-1));
+                    let fired = MPROTECT_FIRED.with(|f| f.get());
+                    if fired {
+                        fault("mprotect_refused_during_installation");
+                    }
+                    match r {
+                        Ok(()) => {
+                            if fired {
+                                viol("install-succeeded-despite-refused-syscall", format!("{what}: mprotect call #{k} of the installation was refused, yet it reported success"));
+                            }
+                            let v = black_box(ct_fn as fn(u32) -> u32)(1);
+                            if !fired && v != 41 {
+                                viol("injector-holder-observed-foreign-behaviour", format!("{what}: the second fake should answer 41 but ct_fn(1) returned {v}"));
+                            }
+                        }
+                        Err(p) => {
+                            if !fired {
+                                std::panic::resume_unwind(p);
+                            }
+                            // the refused installation leaves the function alone, then the holder unwinds
+                            let v = black_box(ct_fn as fn(u32) -> u32)(1);
+                            if v != 2 {
+                                viol("refused-installation-left-function-redirected", format!("{what}: after the refused installation ct_fn(1) returned {v}, not the original 2"));
+                            }
+                            std::panic::resume_unwind(p);
+                        }
+                    }
+                }
                 _ => {}
             }
             drop(inj);
@@ -304,6 +390,10 @@ fn do_round(tid: usize, ri: usize, r: &Round, handover_holder: bool) {
                 let v = black_box(sh_fn as fn() -> u32)();
                 if v != 6 {
                     viol("preventer-holder-observed-fake", format!("{what}: while holding a preventer the shared function returned {v}, not the original 6"));
+                }
+                let c0 = black_box(ct_fn as fn(u32) -> u32)(1);
+                if c0 != 2 {
+                    viol("preventer-holder-observed-fake", format!("{what}: while holding a preventer ct_fn(1) returned {c0}, not the original 2"));
                 }
             }
             IN_CS.fetch_sub(1, Ordering::SeqCst);
@@ -322,6 +412,7 @@ fn do_round(tid: usize, ri: usize, r: &Round, handover_holder: bool) {
             "rejected" => msg.contains("unexpected arguments"),
             "refused" => msg.contains("Signature mismatch"),
             "unsatisfied" => msg.contains("expected to be called"),
+            e if e.starts_with("osfault") => msg.contains("mprotect"),
             _ => false,
         };
         if !expected {
@@ -413,13 +504,20 @@ pub fn execute(sc: &TScenario, sh: &Shared) -> Value {
         "sharedsite" => {
             N_EXPECT.store(scn.n, Ordering::SeqCst);
             let n = scn.n as u32;
+            let zero = scn.profile == "C06";
             let body = move |ti: usize, rounds: Vec<Round>| {
                 for (ri, r) in rounds.iter().enumerate() {
                     let mut admitted = 0u32;
                     let mut rejected = 0u32;
                     let res = catch_unwind(AssertUnwindSafe(|| {
                         let mut inj = InjectorPP::new();
-                        inj.when_called(ipp_sched::func!(fn (ct_fn)(u32) -> u32)).will_execute(counted_site());
+                        let pair = counted_site();
+                        if zero {
+                            if let CallCountVerifier::WithCount { counter, .. } = &pair.1 {
+                                counter.store(0, Ordering::SeqCst);
+                            }
+                        }
+                        inj.when_called(ipp_sched::func!(fn (ct_fn)(u32) -> u32)).will_execute(pair);
                         for c in 0..r.calls {
                             simsched::thread::yield_now();
                             match catch_unwind(AssertUnwindSafe(|| black_box(ct_fn as fn(u32) -> u32)(c))) {
@@ -486,7 +584,7 @@ pub fn execute(sc: &TScenario, sh: &Shared) -> Value {
     unsafe { libc::alarm(0) };
     // ---- verdicts after the run
     let mut out_v: Vec<Value> = Vec::new();
-    let props = props_for(&sc.family);
+    let props = props_for(&sc.family, &sc.profile);
     for (t, d) in VIOL.lock().unwrap_or_else(|p| p.into_inner()).iter() {
         out_v.push(json!({"tag": t, "props": props, "detail": d}));
     }
